@@ -32,6 +32,10 @@ type Geo struct {
 	Files    []File // nil: single-file
 	Seed     uint64
 
+	// HashOnly, when non-nil, limits real piece hashes to the listed pieces; the others get twenty zero
+	// bytes (they can never verify). For geometries too large to hash as a whole.
+	HashOnly map[int]bool
+
 	Trackers [][]string
 	URLList  []string
 	HTTPSeeds []string
@@ -120,6 +124,9 @@ func (g *Geo) Piece(i int) []byte {
 
 // PieceHash returns SHA-1 of the true piece.
 func (g *Geo) PieceHash(i int) []byte {
+	if g.HashOnly != nil && !g.HashOnly[i] {
+		return make([]byte, 20)
+	}
 	h := sha1.Sum(g.Piece(i))
 	return h[:]
 }
